@@ -802,6 +802,32 @@ def oracle_corrupt(cls, kind, doc, fault, expect_ok):
             out.append(("%s.deserialize/guarded:%s" % (kind, fk), "deserialize built an object from the corrupted document (%s) %r" % (fault, doc)))
     if built is not None and not accepted:
         out.append(("%s.deserialize/guarded" % kind, "deserialize built an object from a document validate refuses: %r" % (doc,)))
+    if not expect_ok and isinstance(doc, dict) and not out:
+        # the same judgement when the corrupted document is a dict the class has seen valid before: a valid document is
+        # validated and deserialized, then edited in place into the corrupted one (same object), then offered again
+        good = {"vertices": [[0.0, 0.0, 0.0], [1.0, 0.0, 0.0]], "isClosed": False} if kind == "polyline" else \
+            {"referencePoint": [0.0, 0.0, 0.0], "unitNormal": [0.0, 0.0, 1.0]}
+        obj = clone(good)
+        try:
+            cls.validate(obj)
+            cls.deserialize(obj)
+        except Exception:
+            obj = None
+        if obj is not None:
+            obj.clear()
+            obj.update(clone(doc))
+            try:
+                cls.validate(obj)
+                out.append(("%s.validate/refuses:%s" % (kind, fk), "validate accepts the corrupted document (%s) when the same "
+                            "dict object was valid a moment ago: %r" % (fault, doc)))
+            except VE:
+                pass
+            try:
+                cls.deserialize(obj)
+                out.append(("%s.deserialize/guarded:%s" % (kind, fk), "deserialize built an object from the corrupted document "
+                            "(%s) when the same dict object was valid a moment ago: %r" % (fault, doc)))
+            except Exception:
+                pass
     return dedupe(out)
 
 
